@@ -1,5 +1,8 @@
 use std::collections::HashMap;
+#[cfg(not(similari_verif))]
 use std::sync::{Arc, RwLock, RwLockReadGuard, RwLockWriteGuard};
+#[cfg(similari_verif)]
+use crate::verif::sync::{Arc, RwLock, RwLockReadGuard, RwLockWriteGuard};
 
 use rand::Rng;
 
